@@ -866,7 +866,25 @@ func c04concurrentPatches(env *core.Env) {
 		// (a refused request may have had a first part taken while that was still the
 		// end of the upload), the whole chunk if and only if the request succeeded.
 		want := append(append([]byte{}, base...), shadow...)
+		committed := false
+		for _, p := range plans {
+			committed = committed || (p.viaPUT && p.err == nil)
+		}
 		for t, p := range plans {
+			if committed {
+				// Once the session has been committed, what another request on its id finds -
+				// the finished session or a fresh one - is the registry's business, and the
+				// record of accepted bytes may span two sessions, so that positions in it
+				// mean nothing: in such a run only this is asked, that what a successful
+				// closing PUT names is there.
+				if p.viaPUT && p.err == nil {
+					content := append(append([]byte{}, base...), p.data...)
+					if _, rerr := mem.ResolveBlob(ctx, repo, reg.Sha256(content)); rerr != nil {
+						env.Failf("C04/concurrent/closing-put-ok-but-no-blob", "client %d's closing PUT succeeded but the blob it names is not there: %v", t, rerr)
+					}
+				}
+				continue
+			}
 			letter := p.data[0]
 			first, n := -1, 0
 			for i := len(base); i < len(want); i++ {
@@ -919,6 +937,13 @@ func c04concurrentPatches(env *core.Env) {
 				if got := e.RespHeader.Get("Range"); got != want {
 					env.Failf("C04/concurrent/range-of-another-request", "client %d's PATCH of %d bytes for offset %d was accepted with Range: %s, want %s (what the upload held once its own data was in)", t, len(p.data), p.off, got, want)
 				}
+			}
+		}
+		for _, p := range plans {
+			if p.viaPUT && p.err == nil {
+				// the session has been committed: whether it can still be asked for its
+				// size is the registry's business (the blob was looked for above)
+				return
 			}
 		}
 		w, err := mem.PushBlobChunkedResume(ctx, repo, spy.between(0, -1, repo)[0], -1, 0)
